@@ -154,6 +154,21 @@ def replay_needs_update(which, stored, configured, present=True):
             return "needs_update(stored %d, configured %d) raises %r" % (st, cf, e)
         if got != (st != cf):
             return "libpass %s(rounds=%d).needs_update(hash with cost %d) -> %r" % (which, cf, st, got)
+    # hashes of the other formats (made by either API) always need an update
+    others = {"sha256": PH.sha256_crypt.using(rounds=1000), "sha512": PH.sha512_crypt.using(rounds=1000), "pbkdf2-sha256": PH.pbkdf2_sha256.using(rounds=2),
+              "pbkdf2-sha512": PH.pbkdf2_sha512.using(rounds=2), "bcrypt": PH.bcrypt.using(rounds=4), "bcrypt-sha256": PH.bcrypt_sha256.using(rounds=4),
+              "md5-crypt": PH.md5_crypt}
+    mine = L(rounds=max(lo, min(configured, 6 if cheap else 20000)))
+    for fmt, Hh in others.items():
+        if fmt == which:
+            continue
+        h = Hh.hash("pw")
+        try:
+            got = mine.needs_update(h)
+        except Exception as e:
+            return "libpass %s.needs_update(a %s hash) raises %r" % (which, fmt, e)
+        if got is not True:
+            return "libpass %s.needs_update(a %s hash) -> %r" % (which, fmt, got)
     return False
 
 
@@ -199,6 +214,7 @@ def ob_needs_update(which):
     stored = ZInt.var("stored")
     configured = ZInt.var("configured")
     present = z3.Bool("rounds_present")
+    foreign = z3.Bool("foreign_format")        # the stored string is in another format: the inspector answers None
     B = z3.And(stored.e >= 0, stored.e <= 10 ** 9, configured.e >= 1000, configured.e <= 999999999)
     if which in ("sha256", "sha512"):
         import libpass.hashers.sha_crypt as M
@@ -206,7 +222,7 @@ def ob_needs_update(which):
         info_cls = cls._info_cls
 
         def insp(hash, cls=None):
-            if cls is not info_cls:
+            if cls is not info_cls or bool(SBool(foreign)):
                 return None
             r = stored if bool(SBool(present)) else None
             return info_cls(rounds=r, salt="salt", hash="h" * 43)
@@ -219,7 +235,7 @@ def ob_needs_update(which):
         with patched((M, "inspect_sha_crypt", insp)):
             paths = explore(run)
         eff = z3.If(z3.And(present, stored.e != 0), stored.e, 5000)
-        want = eff != configured.e
+        want = z3.Or(foreign, eff != configured.e)
     else:
         if which.startswith("pbkdf2"):
             import libpass.hashers.pbkdf2 as M
@@ -227,18 +243,24 @@ def ob_needs_update(which):
             name, icls = "inspect_pbkdf2_hash", cls.HASH_INFO_CLS
 
             def insp(hash, cls=None):
+                if bool(SBool(foreign)):
+                    return None
                 return icls(rounds=stored, salt="s", hash="h")
         elif which == "bcrypt":
             import libpass.hashers.bcrypt as M
             cls, name = M.BcryptHasher, "inspect_bcrypt_hash"
 
             def insp(hash):
+                if bool(SBool(foreign)):
+                    return None
                 return M.BcryptHashInfo(prefix="2b", rounds=stored, salt="s" * 22, hash="h" * 31)
         else:
             import libpass.hashers.bcrypt as M
             cls, name = M.BcryptSHA256Hasher, "inspect_phc"
 
             def insp(hash, defn):
+                if bool(SBool(foreign)):
+                    return None
                 return M.BcryptSHA256PHCV2(id="bcrypt-sha256", version_=2, type="2b", rounds=stored, hash="h" * 31, salt="s" * 22)
 
         def run():
@@ -248,7 +270,7 @@ def ob_needs_update(which):
             return h.needs_update("$x$stub")
         with patched((M, name, insp)):
             paths = explore(run)
-        want = stored.e != configured.e
+        want = z3.Or(foreign, stored.e != configured.e)
     for p in paths:
         if p.exc is not None:
             return inconclusive("needs_update raised %r" % (p.exc,))
@@ -257,13 +279,13 @@ def ob_needs_update(which):
         r, m = valid(gb == want, p.cond())
         if r == "sat":
             return _v("libpass %s.needs_update: stored cost %s, configured %s -> %r" % (
-                which, m.eval(stored.e, True), m.eval(configured.e, True), z3.is_true(m.eval(gb, True))), "needs_update:%s" % which,
+                which, "<a hash of another format>" if z3.is_true(m.eval(foreign, True)) else m.eval(stored.e, True),
+                m.eval(configured.e, True), z3.is_true(m.eval(gb, True))), "needs_update:%s" % which,
                 func="replay_needs_update", which=which, stored=m.eval(stored.e, True).as_long(),
                 configured=m.eval(configured.e, True).as_long(), present=z3.is_true(m.eval(present, True)))
         if r != "unsat":
             return inconclusive("solver %s" % r)
-    # a hash of another format (inspector answers None) always needs an update
-    return ok("libpass %s.needs_update == (effective stored cost != configured cost) for all integers (%d paths)" % (which, len(paths)),
+    return ok("libpass %s.needs_update == (another format, or effective stored cost != configured cost) for all integers (%d paths)" % (which, len(paths)),
               paths=len(paths))
 
 
